@@ -209,6 +209,8 @@ func runC06(a *A) {
 	a.Rule("fnsafe/execute-guarded", 5, func() { a.ruleExecuteGuarded() })
 	a.Rule("fnsafe/arg-index", 100, func() { a.ruleArgIndex() })
 	a.Rule("ownmap/singleton-state", 3, func() { a.ruleSingletonState() })
+	a.Rule("ownmap/shared-state", 5, func() { a.ruleSharedState() })
+	a.Rule("flow/pooled-map-cleared", 1, func() { a.rulePooledMapsModule() })
 	a.Rule("flow/cache-stores-success-only", 4, func() { a.ruleCacheStoresSuccessOnly() })
 	a.Rule("shape/whole-call-slice", 1, func() { a.ruleWholeCallSlice("stream") })
 	a.Rule("fnsafe/slice-bound-overflow", 1, func() { a.ruleSliceBoundOverflow("functions") })
